@@ -81,7 +81,7 @@ func (a *analyzer) acquisitions(storing map[string]bool) []acqRow {
 		r.line = fset.Position(n.Pos()).Line
 		r.pos = n.Pos()
 		stop := a.enclosingFunc(n)
-		r.cond = strings.Join(a.condsOf(n, ast.Node(a.fd), nil), " && ")
+		r.cond = a.condsOf(n, ast.Node(a.fd), nil).text
 		r.inLoop = a.inLoop(n, stop)
 		rows = append(rows, r)
 	}
@@ -121,7 +121,7 @@ func (a *analyzer) storingCall(c *ast.CallExpr, storing map[string]bool) string 
 }
 
 func (a *analyzer) stateCall(c *ast.CallExpr, name string) acqRow {
-	r := acqRow{callee: calleeName(c.Fun), kind: "state", bound: ""}
+	r := acqRow{callee: a.cn.callee(c), kind: "state", bound: ""}
 	def := a.stmtOf(c)
 	if def == nil {
 		r.disp, r.arg = "unknown", "the call is not a statement of its own"
@@ -143,28 +143,28 @@ func (a *analyzer) stateCall(c *ast.CallExpr, name string) acqRow {
 }
 
 func (a *analyzer) goroutine(g *ast.GoStmt) acqRow {
-	r := acqRow{callee: calleeName(g.Call.Fun), kind: "goroutine"}
+	r := acqRow{callee: a.cn.callee(g.Call), kind: "goroutine"}
+	// the function the goroutine runs: a literal, or a function / method of the module (its declaration is looked up by the
+	// identity of the called object, so its own name, receiver and parameter names do not matter)
+	ga := a
 	var body *ast.BlockStmt
-	if lit, ok := g.Call.Fun.(*ast.FuncLit); ok {
+	if lit, ok := unparen(g.Call.Fun).(*ast.FuncLit); ok {
 		body = lit.Body
-	} else if id, ok := g.Call.Fun.(*ast.Ident); ok {
-		if fd := a.pkgFns[id.Name]; fd != nil {
-			body = fd.Body
+	} else if h := a.helperOf(g.Call); h != nil {
+		ga = a.helperAnalyzer(h)
+		body = h.fd.Body
+	} else if f := a.cn.calledFunc(g.Call); f != nil && a.lookup != nil {
+		if h := a.lookup(f); h != nil && h.fd == a.fd { // the function starts itself
+			body = h.fd.Body
 		}
 	}
 	if body == nil {
-		r.disp, r.arg = "unknown", "the goroutine's function is not a plain function of this package"
+		r.disp, r.arg = "unknown", "the goroutine's function is not a function of this module"
 		return r
 	}
 	// its completion signal: a deferred send on a channel (sites: "defer") …
 	ch := ""
-	chanName := func(snd *ast.SendStmt) string {
-		c := exprString(snd.Chan)
-		if i := strings.LastIndex(c, "."); i >= 0 {
-			c = c[i+1:]
-		}
-		return c
-	}
+	chanName := func(snd *ast.SendStmt) string { return ga.placeOf(snd.Chan) }
 	for _, s := range body.List {
 		d, ok := s.(*ast.DeferStmt)
 		if !ok {
@@ -183,10 +183,20 @@ func (a *analyzer) goroutine(g *ast.GoStmt) acqRow {
 	}
 	// … or (6dd9211) a plain send on one and the same channel as the LAST statement before EVERY normal exit of the function:
 	// before each `return` of the function itself (not of a nested literal) and at the end of its body (sites: one "direct"
-	// per exit).  A path that ends in log.Panicf & co. is not a normal exit: the process stops there.
+	// per exit).  A path that ends in log.Panicf & co. is not a normal exit: the process stops there.  Statements between
+	// the send and the exit that only call pure / logging functions (canon.pureCall) do not count.
 	why := ""
 	var sites []string
 	signalBefore := func(list []ast.Stmt, i int, what string) {
+		for i > 0 {
+			if es, ok := list[i-1].(*ast.ExprStmt); ok {
+				if c, ok := unparen(es.X).(*ast.CallExpr); ok && ga.cn.pureCall(c) && !ga.isTerminator(c) {
+					i--
+					continue
+				}
+			}
+			break
+		}
 		if i > 0 {
 			if snd, ok := list[i-1].(*ast.SendStmt); ok {
 				c := chanName(snd)
@@ -208,7 +218,7 @@ func (a *analyzer) goroutine(g *ast.GoStmt) acqRow {
 		for i, s := range list {
 			switch x := s.(type) {
 			case *ast.ReturnStmt:
-				signalBefore(list, i, "a return (line "+itoa(fset.Position(x.Pos()).Line)+")")
+				signalBefore(list, i, "a return")
 			case *ast.BlockStmt:
 				walk(x.List)
 			case *ast.IfStmt:
@@ -254,7 +264,7 @@ func (a *analyzer) goroutine(g *ast.GoStmt) acqRow {
 		case *ast.ReturnStmt:
 			endsElsewhere = true
 		case *ast.ExprStmt:
-			if c, ok := x.X.(*ast.CallExpr); ok && a.isTerminator(c) {
+			if c, ok := x.X.(*ast.CallExpr); ok && ga.isTerminator(c) {
 				endsElsewhere = true
 			}
 		}
@@ -287,7 +297,7 @@ func (a *analyzer) stmtOf(n ast.Node) ast.Node {
 }
 
 func (a *analyzer) acquisition(c *ast.CallExpr) acqRow {
-	r := acqRow{callee: calleeName(c.Fun), kind: a.kindOf(c)}
+	r := acqRow{callee: a.cn.callee(c), kind: a.kindOf(c)}
 	if r.kind == "object" {
 		for _, arg := range c.Args {
 			if tv, ok := a.info.Types[arg]; ok && tv.Type != nil && !tv.IsType() && a.owned(tv.Type, 2) {
@@ -364,7 +374,7 @@ func (a *analyzer) acquisition(c *ast.CallExpr) acqRow {
 	case *ast.CallExpr:
 		if p.Fun != top {
 			if a.acquires(p) {
-				r.disp, r.arg = "handedTo", calleeName(p.Fun)
+				r.disp, r.arg = "handedTo", a.cn.callee(p)
 				return r
 			}
 			if a.isBuiltin(p, "append") {
@@ -372,7 +382,7 @@ func (a *analyzer) acquisition(c *ast.CallExpr) acqRow {
 			}
 			if s, ok := p.Fun.(*ast.SelectorExpr); ok {
 				if q, ok := a.pathOf(s.X); ok && a.roots[q.root] {
-					r.disp, r.arg = "storedIn", calleeName(p.Fun)
+					r.disp, r.arg = "storedIn", a.cn.callee(p)
 					return r
 				}
 			}
@@ -382,7 +392,7 @@ func (a *analyzer) acquisition(c *ast.CallExpr) acqRow {
 				return r
 			}
 		}
-		return unknown(fmt.Sprintf("the value is used in a call of %s", calleeName(p.Fun)))
+		return unknown(fmt.Sprintf("the value is used in a call of %s", a.cn.callee(p)))
 	default:
 		return unknown(fmt.Sprintf("the value is used in a %T", p))
 	}
@@ -417,12 +427,12 @@ func (a *analyzer) acquisition(c *ast.CallExpr) acqRow {
 		}
 		p, ok := a.pathOf(l)
 		if !ok {
-			return unknown("the value is stored in " + exprString(l))
+			return unknown("the value is stored in " + a.cn.expr(l))
 		}
-		bound = append(bound, exprString(l))
+		bound = append(bound, a.placeName(p))
 		if a.outlives(p) {
 			e.start.stored = true
-			e.where = addUnique(e.where, exprString(l))
+			e.where = addUnique(e.where, a.placeName(p))
 			continue
 		}
 		e.bind = append(e.bind, p)
@@ -434,15 +444,30 @@ func (a *analyzer) acquisition(c *ast.CallExpr) acqRow {
 		r.leakOn = []string{"no variable receives the value"}
 		return r
 	}
-	sort.Slice(e.bind, func(i, j int) bool { return e.bind[i].key() < e.bind[j].key() })
+	sort.Slice(e.bind, func(i, j int) bool { return e.bind[i].root.Pos() < e.bind[j].root.Pos() })
+	if wrapped && len(lhs) == 1 {
+		// the value sits in a field of the object built around it
+		if f := compositeField(top, func(x ast.Expr) bool { return unparen(x) == ast.Expr(c) }); f != "" && len(e.bind) == 1 {
+			e.places = append(e.places, e.bind[0].with(f))
+		}
+	}
 	e.run()
+	// a local that only carries the value to a field of a local object (slot of a local collection) is named by that place
+	if len(e.places) > 0 {
+		var ps []string
+		for _, p := range e.places {
+			ps = addUnique(ps, a.placeName(p))
+		}
+		sort.Strings(ps)
+		r.bound = strings.Join(ps, ", ")
+	}
 	a.verdict(e, &r)
 	return r
 }
 
 func (a *analyzer) verdict(e *engine, r *acqRow) {
 	r.sites = siteStrings(e.sites)
-	r.leakOn = e.leakOn
+	r.leakOn = stepTexts(e.leakOn)
 	r.stores = e.out["stored"]
 	sort.Ints(e.leakLines)
 	r.leakLines = nil
@@ -451,14 +476,14 @@ func (a *analyzer) verdict(e *engine, r *acqRow) {
 			r.leakLines = append(r.leakLines, l)
 		}
 	}
-	r.errAfterStore = e.errAfter
+	r.errAfterStore = stepTexts(e.errAfter)
 	switch {
 	case len(e.unknowns) > 0:
 		sort.Strings(e.unknowns)
 		r.disp, r.arg = "unknown", strings.Join(e.unknowns, "; ")
 	case e.out["leakOk"]:
 		r.disp = "neverClosed"
-		r.leakOn = append(append([]string{}, e.leakOk...), e.leakOn...)
+		r.leakOn = append(stepTexts(e.leakOk), stepTexts(e.leakOn)...)
 	case e.out["leakErr"]:
 		r.disp = "leakedOnErrorPath"
 	case e.out["returned"]:
@@ -542,12 +567,14 @@ func (a *analyzer) releases() []relRow {
 				conds = addUnique(conds, c)
 			}
 		}
+		var skipped []step
 		for _, u := range e.unrel {
 			if u.early {
 				r.skippable = true
-				r.skippedBy = addUnique(r.skippedBy, u.desc)
+				skipped = addStep(skipped, u.desc)
 			}
 		}
+		r.skippedBy = stepTexts(skipped)
 		allEarly := true
 		for _, u := range e.unrel {
 			if !u.early {
